@@ -52,6 +52,31 @@ def server_ae(served, supported, max_len=65536):
     return ae, rec
 
 
+class History(object):
+    """ONE application entity whose configuration grows between associations: every add() registers one more service;
+    all of them record into .calls."""
+
+    def __init__(self, supported, max_len=65536):
+        self.ae = applicationentity.AE('SCP', 0, supported_ts=list(supported), max_pdu_length=max_len, bind_and_activate=False)
+        try:
+            self.ae.server_close()
+        except Exception:      # noqa
+            pass
+        self.calls = []
+        self.served = []
+
+    def add(self, classes):
+        hist = self
+
+        class _Svc(object):
+            sop_classes = list(classes)
+
+            def __call__(self, asce, ctx, msg, *a):
+                hist.calls.append((ctx, msg))
+        self.ae.add_scp(_Svc())
+        self.served.extend(classes)
+
+
 def rq_bytes(called, calling, ctxs, max_len=16384, appctx=APP_CTX, user_first=None):
     items = [{'t': 0x10, 'name': appctx.encode()}]
     for c in ctxs:
@@ -167,11 +192,14 @@ def run_handler(ae, own_max, replies):
     return acc, (fac.made[0] if fac.made else None), exc
 
 
-def run_accept(cfg, rq, own_max=65536, peer_max=16384, user_first=False, probe=None):
+def run_accept(cfg, rq, own_max=65536, peer_max=16384, user_first=False, probe=None, entity=None):
     """cfg/rq in spec vocabulary but with real UIDs.  One real association (constructor + handler) gives
     the answer and the tables; one more per probed context shows what _loop dispatches.
     Returns (ans dict, acceptor, announced max, notes)."""
-    ae, rec = server_ae(cfg['served'], cfg['supported'], own_max)
+    if entity is not None:
+        ae, rec = entity.ae, entity          # an entity with a history (its current configuration is what cfg says)
+    else:
+        ae, rec = server_ae(cfg['served'], cfg['supported'], own_max)
     req_bytes = rq_bytes(rq['called'], rq['calling'], rq['ctxs'], peer_max, rq['appctx'], user_first)
     acc, dul, exc = run_handler(ae, own_max, [pdu.AAssociateRqPDU.decode(req_bytes)])
     if acc is None or not dul.sent:
